@@ -509,3 +509,36 @@ Theorem errors_handed_back sz script os r :
 Proof.
   intros Hsz H. exact (runE_errors _ _ _ _ _ (inv_new sz Hsz) (le_n _) H).
 Qed.
+
+(* ------------------------------------------------------------------ *)
+(* a reader that is used again after Finish (truncation of a tailed file):
+   every generation is framed on its own, nothing of an earlier generation is
+   delivered again or glued to later data *)
+Lemma inv_finish_st r : inv r -> inv (finish_st r) /\ pending (finish_st r) = [].
+Proof.
+  intros ((Ho & Hb & _) & _ & _ & Hsz). unfold finish_st, inv, wf, pending. cbn.
+  repeat split; try lia; auto. intros [].
+Qed.
+
+Lemma run_gens_spec gens : forall r res r',
+  inv r -> pending r = [] -> run_gens r gens = (res, r') ->
+  map gen_lines res = map (fun g => frame (concat g)) gens /\ inv r' /\ pending r' = [].
+Proof.
+  induction gens as [|g rest IH]; intros r res r' Hinv Hp H; cbn [run_gens] in H.
+  - injection H as <- <-. auto.
+  - destruct (run (run_fuel g) r g) as [os r1] eqn:Er.
+    destruct (run_gens (finish_st r1) rest) as [more r2] eqn:Eg. injection H as <- <-.
+    destruct (run_spec _ _ _ _ _ Hinv (le_n _) Er) as (Hsplit & Hinv1).
+    destruct (inv_finish_st r1 Hinv1) as (Hinv2 & Hp2).
+    destruct (IH _ _ _ Hinv2 Hp2 Eg) as (Hm & Hi & Hq).
+    split; [|auto]. cbn [map]. f_equal; [|exact Hm].
+    unfold gen_lines, frame, finish. cbn [fst snd]. rewrite Hp in Hsplit. rewrite Hsplit. reflexivity.
+Qed.
+
+Theorem generations_framed_separately sz gens res r :
+  1 <= sz -> run_gens (new_lr sz) gens = (res, r) ->
+  map gen_lines res = map (fun g => frame (concat g)) gens /\ bad r = false.
+Proof.
+  intros Hsz H. destruct (run_gens_spec _ _ _ _ (inv_new sz Hsz) eq_refl H) as (Hm & Hi & _).
+  split; [exact Hm|apply Hi].
+Qed.
